@@ -757,6 +757,24 @@ def lifecycle_state(repo: Repo) -> RuleRun:
 
 lifecycle_state.rule_id = "C20.LIFECYCLE-STATE"
 
+def _refused_nonpositive(fn: FuncInfo, name: str, before_line: int) -> bool:
+    """a raising guard among the statements of the function body, above `before_line`, whose test is true for name = 0 and name = -1
+    and false for name = 0.5 (evaluated on the guard's own comparison; guards that mention anything else are not counted)"""
+    for st in fn.node.body:
+        if not (isinstance(st, ast.If) and st.lineno < before_line and any(isinstance(x, ast.Raise) for x in st.body)):
+            continue
+        if {x.id for x in ast.walk(st.test) if isinstance(x, ast.Name)} - {name, "TOL", "VSMALL"}:
+            continue
+        try:
+            code = compile(ast.Expression(body=st.test), "<guard>", "eval")
+            vals = [bool(eval(code, {"__builtins__": {}}, {name: v, "TOL": 1e-7, "VSMALL": 1e-12})) for v in (0.0, -1.0, 0.5)]  # the guard's own comparison on numbers
+        except Exception:  # noqa: BLE001
+            continue
+        if vals == [True, True, False]:
+            return True
+    return False
+
+
 def signed_magnitude(repo: Repo) -> RuleRun:
     """An upper-bound guard 'x > magnitude' (raising) is enforced on one side only when x is a raw, signed number handed in by
     the caller while the quantity that matters is its magnitude (the same parameter multiplies a direction to build a point):
@@ -786,6 +804,8 @@ def signed_magnitude(repo: Repo) -> RuleRun:
                 continue
             n_guards += 1
             raw = isinstance(big, ast.Name) and big.id in float_params and not any(isinstance(x, ast.Assign) and any(isinstance(t, ast.Name) and t.id == big.id for t in x.targets) for x in ast.walk(fn.node))
+            if raw and _refused_nonpositive(fn, big.id, guard.lineno):
+                raw = False  # an earlier guard of the same function refuses the parameter at zero and below: from there on it IS a magnitude
             r.check(
                 not raw or env.nonneg(big),
                 fn,
@@ -914,7 +934,10 @@ message_strictness.rule_id = "C20.MESSAGE-STRICTNESS"
 def perpendicular_scale_free(repo: Repo) -> RuleRun:
     from ..dims import perpendicular_guards_rule
 
-    return perpendicular_guards_rule(repo, PROP, "C20.PERPENDICULAR-SCALE-FREE")
+    # strict: the sibling shapes must agree - every perpendicularity guard tests the COSINE (degree 0), so that the same three points
+    # are refused by the ring and by the cylinder; a length (one vector normalised) against the tolerance accepts any lean of a
+    # millimetre-sized ring
+    return perpendicular_guards_rule(repo, PROP, "C20.PERPENDICULAR-SCALE-FREE", strict=True, example="ExtrudedRing([0,0,0],[1e-6,0,0],[5e-8,5e-7,0], 2e-7), radius leaning 5.7 degrees, accepted where Cylinder refuses the same three points")
 
 
 perpendicular_scale_free.rule_id = "C20.PERPENDICULAR-SCALE-FREE"
